@@ -2,7 +2,8 @@
    lines, judge the real observation with the spec checker.
 
    case:  kind mode hbm pre n post seed  { opcode tsize tbe a b c d [list] }*
-   obs :  { kind n [buf] [diff positions] [diff bytes] }*                                    *)
+   obs :  { kind n [buf] [diff positions] [diff bytes] }*
+   (values of types wider than 16 bytes travel as byte lists, see "WIDE types" below)        *)
 From VM Require Import Prelude.MachInt Prelude.Outcome Prelude.Tok Impl.VolMem Spec.C04.
 
 Definition vt (t : sty) : vty := {| ty_size := st_size t; ty_be := st_be t |}.
@@ -177,7 +178,7 @@ Definition run_C04 (c : case04) : list obs04 :=
   run_hist (c_kind c) (c_mode c) (c_hb c) {| mr_addr := c_pre c; mr_size := c_n c |} (c_heap c) (c_ops c).
 
 (* ---- well-formed cases (the domain of the theorems; the suite rejects everything else) ---- *)
-Definition wf_ty (t : sty) : bool := st_size t <=? 32.
+Definition wf_ty (t : sty) : bool := st_size t <=? 256.
 Definition wf_aty (t : sty) : bool :=
   (st_size t =? 1) || (st_size t =? 2) || (st_size t =? 4) || (st_size t =? 8).
 Definition wf_val (t : sty) (v : N) : bool := v <? 256 ^ st_size t.
@@ -225,30 +226,91 @@ Definition mk_op (code : N) (t : sty) (a b c d : N) (l : list N) : option op :=
   | 17 => Some (OSlCopyToVs a b c d)
   | _ => None
   end.
+(* WIDE types (more than 16 bytes: [u8;17] ... [u64;32]): a value does not fit a number token of
+   the harness (u128), so it travels as its memory image (little-endian byte list):
+     in a case  - the value of write_obj / ref store / array store is the list token (b / d = 0);
+                  an element buffer is the concatenation of the images of its elements;
+     in an obs  - a loaded value is the buf token (n = 0; empty when the call failed);
+                  an element buffer after the call is the concatenation of the images. *)
+Definition wide (t : sty) : bool := 16 <? st_size t.
+Fixpoint chunks_of (fuel : nat) (k : nat) (l : list N) {struct fuel} : list (list N) :=
+  match fuel with
+  | O => []
+  | S f => match l with [] => [] | _ => firstn k l :: chunks_of f k (skipn k l) end
+  end.
+Definition vals_of_bytes (t : sty) (l : list N) : list N :=
+  map num_le (chunks_of (length l) (N.to_nat (st_size t)) l).
+Definition bytes_of_vals (t : sty) (l : list N) : list N :=
+  concat (map (bytes_le (N.to_nat (st_size t))) l).
+Definition all_bytes (l : list N) : bool := forallb (fun x => x <? 256) l.
+
+Definition mk_op_w (code : N) (t : sty) (a b c d : N) (l : list N) : option op :=
+  if wide t then
+    if all_bytes l then
+      match code with
+      | 4 | 8 => if slen l =? st_size t then mk_op code t a (num_le l) c d [] else None
+      | 10 => if slen l =? st_size t then mk_op code t a b c (num_le l) [] else None
+      | 12 | 13 | 15 | 16 =>
+          if slen l mod st_size t =? 0 then mk_op code t a b c d (vals_of_bytes t l) else None
+      | _ => mk_op code t a b c d l
+      end
+    else None
+  else mk_op code t a b c d l.
+
 Fixpoint parse_ops (ts : list tok) {struct ts} : option (list op) :=
   match ts with
   | [] => Some []
   | TN code :: TN tsz :: TN tbe :: TN a :: TN b :: TN c :: TN d :: TL l :: rest =>
-      match mk_op code {| st_size := tsz; st_be := N.odd tbe |} a b c d l, parse_ops rest with
+      match mk_op_w code {| st_size := tsz; st_be := N.odd tbe |} a b c d l, parse_ops rest with
       | Some o, Some os => Some (o :: os)
       | _, _ => None
       end
   | _ => None
   end.
-Fixpoint parse_obs (ts : list tok) {struct ts} : option (list obs04) :=
+
+(* how the observation of an operation travels: 0 as it is, 1 loaded wide value in buf,
+   2 wide element buffer as bytes *)
+Definition obs_codec (o : op) : N * sty :=
+  match o with
+  | OReadObj t _ | ORefLoad t _ | OArrLoad t _ _ _ => (if wide t then 1 else 0, t)
+  | OArrCopyTo t _ _ _ | OSlCopyTo t _ _ _ => (if wide t then 2 else 0, t)
+  | _ => (0, {| st_size := 0; st_be := false |})
+  end.
+Definition dec_obs1 (o : op) (k n : N) (b di dv : list N) : obs04 :=
+  let '(cd, t) := obs_codec o in
+  if cd =? 1 then {| o_kind := k; o_n := n + num_le b; o_buf := []; o_di := di; o_dv := dv |}
+  else if cd =? 2 then {| o_kind := k; o_n := n; o_buf := vals_of_bytes t b; o_di := di; o_dv := dv |}
+  else {| o_kind := k; o_n := n; o_buf := b; o_di := di; o_dv := dv |}.
+Definition enc_obs1 (o : op) (x : obs04) : list tok :=
+  let '(cd, t) := obs_codec o in
+  if cd =? 1 then
+    [TN (o_kind x); TN 0; TL (if o_kind x =? 0 then bytes_le (N.to_nat (st_size t)) (o_n x) else o_buf x);
+     TL (o_di x); TL (o_dv x)]
+  else if cd =? 2 then [TN (o_kind x); TN (o_n x); TL (bytes_of_vals t (o_buf x)); TL (o_di x); TL (o_dv x)]
+  else [TN (o_kind x); TN (o_n x); TL (o_buf x); TL (o_di x); TL (o_dv x)].
+
+Fixpoint parse_obs (ops : list op) (ts : list tok) {struct ts} : option (list obs04) :=
   match ts with
   | [] => Some []
   | TN k :: TN n :: TL b :: TL di :: TL dv :: rest =>
-      match parse_obs rest with
-      | Some os => Some ({| o_kind := k; o_n := n; o_buf := b; o_di := di; o_dv := dv |} :: os)
-      | None => None
+      match ops with
+      | o :: ops' =>
+          match parse_obs ops' rest with
+          | Some os => Some (dec_obs1 o k n b di dv :: os)
+          | None => None
+          end
+      | [] => None
       end
   | _ => None
   end.
-Fixpoint enc_obs (os : list obs04) {struct os} : list tok :=
+Fixpoint enc_obs (ops : list op) (os : list obs04) {struct os} : list tok :=
   match os with
   | [] => []
-  | o :: r => TN (o_kind o) :: TN (o_n o) :: TL (o_buf o) :: TL (o_di o) :: TL (o_dv o) :: enc_obs r
+  | x :: r =>
+      match ops with
+      | o :: ops' => enc_obs1 o x ++ enc_obs ops' r
+      | [] => []
+      end
   end.
 
 (* the model places the first heap byte at 2^32 + hbm: only its residue modulo the page size
@@ -256,17 +318,21 @@ Fixpoint enc_obs (os : list obs04) {struct os} : list tok :=
 Definition suite_C04 (inp obs : list tok) : verdict :=
   match inp with
   | TN kind :: TN md :: TN hbm :: TN pre :: TN n :: TN post :: TN seed :: rest =>
-      match parse_ops rest, parse_obs obs with
-      | Some ops, Some ob =>
+      match parse_ops rest with
+      | Some ops =>
+      match parse_obs ops obs with
+      | Some ob =>
           if (hbm <? 4096) && (pre + n + post <=? 65536) && (seed <? 256) && (md <=? 1) then
             let c := {| c_kind := kind; c_mode := if md =? 0 then Debug else Release;
                         c_hb := 4294967296 + hbm; c_pre := pre; c_n := n;
                         c_heap := init_heap (N.to_nat (pre + n + post)) 0 seed; c_ops := ops |} in
             if wf_case c then
-              {| v_model := enc_obs (run_C04 c); v_ok := ok_C04 c ob; v_wellformed := true |}
+              {| v_model := enc_obs ops (run_C04 c); v_ok := ok_C04 c ob; v_wellformed := true |}
             else malformed
           else malformed
-      | _, _ => malformed
+      | None => malformed
+      end
+      | None => malformed
       end
   | _ => malformed
   end.
